@@ -26,7 +26,8 @@ META = {
             "CreateForwardingData for fake players with V1/V2 keys) are verified with crypto/hmac (and must fail "
             "under another secret), must equal byte for byte the layout Payload() built in TLA+ on Wire.tla, and "
             "their Paper-style parse must give back exactly ip, uuid, name, properties and key data. A backend "
-            "sending login success without requesting forwarding must not become the player's server.",
+            "sending login success without requesting forwarding (also after a proxy plugin answered its login plugin request "
+            "on another channel) must not become the player's server.",
     "design_ref": "DESIGN.md section 4, C20",
     "level_note": "HMAC-SHA256 is Go's crypto/hmac in the harness (uninterpreted in the spec). The requested version "
                   "byte is read as 0..255 as the property states (Velocity reads a signed byte; Paper only sends "
@@ -64,6 +65,8 @@ def run(ctx):
         raise vlib.ToolError("no live forwarding payload / no key-carrying payload recorded: vacuous")
     if not s.get("noreq") or not s.get("live_joined_after_request"):
         raise vlib.ToolError("no conclusive no-request observation or no control join after a request: vacuous")
+    if not s.get("noreq_after_plugin_answered_other_channel"):
+        raise vlib.ToolError("no observation of a backend that got a plugin's answer on another channel and never requested forwarding")
     for src in ("shim", "live"):
         for cls in (">2048", ">4096", ">8192"):
             if not s.get("%s_payload%s" % (src, cls)):
@@ -121,7 +124,7 @@ def classify(bad):
     if bad["ev"] == "neg":
         return "negotiate:proto%s:key=%s" % ("<1.19.3" if bad["proto"] < 761 else ">=1.19.3", bad["key"])
     if bad["ev"] == "noreq":
-        return "no-request:backend-accepted"
+        return "no-request:backend-accepted" + (":after-plugin-answer-on-other-channel" if bad.get("otheranswered") else "")
     p = bad.get("p", {})
     w = bad["want"]
     if not bad["macok"]:
